@@ -695,7 +695,9 @@ type c19Tree struct {
 	sb strings.Builder
 }
 
-func (g *c19Tree) name() string { return rng.Pick(g.r, []string{"a", "b", "c", "id", "x1", "_y", "on", "fragment", "query", "true", "null", "T", "Node"}) }
+func (g *c19Tree) name() string {
+	return rng.Pick(g.r, []string{"a", "b", "c", "id", "x1", "_y", "on", "fragment", "query", "true", "null", "T", "Node"})
+}
 
 func (g *c19Tree) dirs() {
 	for n := g.r.Intn(4) - 1; n > 0; n-- {
@@ -951,7 +953,7 @@ func checkC19(c *Ctx) {
 	}
 	c.Ev.Extra["c19"] = map[string]any{
 		"documents_tried": s.docs, "documents_parsed": s.parsed, "corpus_documents": corpus, "kind_order_matrix_documents": len(matrix),
-		"generated_by": genKinds,
+		"generated_by":         genKinds,
 		"with_fragment_spread": s.withSpread, "with_inline_fragment": s.withInline,
 		"model_encoding_equal_bytes": s.encEqual, "encoding_not_compared_comments": s.encSkippedComments,
 		"model_roundtrip_equal": s.rtEqual, "loss_free": s.lossFree,
@@ -967,7 +969,7 @@ func checkC19(c *Ctx) {
 			"field_alias_equals_name": s.cov["aeq"], "field_alias_differs_from_name": s.cov["ane"],
 			"field_with_selection_set": s.cov["fsel"], "field_without_selection_set": s.cov["flf"],
 		},
-		"sibling_kind_pairs_seen_at_depth>=4_of_9":   len(s.bi4),
+		"sibling_kind_pairs_seen_at_depth>=4_of_9":    len(s.bi4),
 		"sibling_kind_triples_seen_at_depth>=4_of_27": len(s.tri4),
 		"sibling_kind_triples_seen_at_depth>=4":       c19SortedKeys(s.tri4),
 		"note": "a parsed document never has an EMPTY selection set (the grammar requires one selection); absent (nil) sets come from leaf fields, " +
